@@ -8,6 +8,12 @@ true cells.  An operation is a JSON list ``[name, arg, ...]``; a definition argu
 import copy
 
 
+def is_exc(raised, name):
+    """The documented exception class *or a subclass of it* (a more specific class keeps every caller working)."""
+    import builtins
+    return name is None or isinstance(raised, getattr(builtins, name))
+
+
 class Reject(Exception):
     """The model rejects the call (unknown or clashing name, conflicting cells)."""
 
@@ -253,7 +259,7 @@ def step(ctx, d, model, op, case, agreement=False):
             if rejected.reason == 'rename to itself' and real_triple(d) == before_triple:
                 return model  # a no-op is accepted (DESIGN.md 5)
             ctx.fail(site + '/accepted-invalid', case(), f'{op!r}: model rejects ({rejected.reason}) but the call returned {got!r}')
-        if rejected.exc and type(raised).__name__ != rejected.exc:
+        if rejected.exc and not is_exc(raised, rejected.exc):
             ctx.fail(site + '/exception-class', case(), f'{op!r}: raised {type(raised).__name__}, documented {rejected.exc}')
         ctx.check(real_triple(d) == before_triple, site + '/changed-on-reject', case,
                   lambda: f'{op!r} raised {type(raised).__name__} but changed the definition to {real_triple(d)!r}')
